@@ -482,10 +482,19 @@ func genStressCancel(t *rapid.T) *Case {
 		r := genBystander(t, fmt.Sprintf("v%d", i))
 		r.Role = "victim"
 		r.HWaitRecv = false
-		if rapid.Bool().Draw(t, fmt.Sprintf("v%d.pre", i)) {
+		switch rapid.IntRange(0, 3).Draw(t, fmt.Sprintf("v%d.how", i)) {
+		case 0, 1:
 			r.PreCancel = true
-		} else {
+		case 2:
 			c.Events = append(c.Events, Event{Kind: "cancel_rpc", Target: len(c.RPCs), After: rapid.IntRange(0, 6).Draw(t, fmt.Sprintf("v%d.after", i))})
+		default:
+			// the cancellation is aimed at the arrival of the RPC's own close frame, with responses still unread at the caller's end
+			r.CancelAtReturnUs = rapid.IntRange(1, 300).Draw(t, fmt.Sprintf("v%d.atreturn", i))
+			if respStreams(r.Shape) && len(r.Resp) == 0 {
+				r.Resp = []int{5, 300}
+				r.HOps = []MDOp{{Kind: "send", Idx: 0}, {Kind: "send", Idx: 1}}
+			}
+			r.StallRecv = rapid.Bool().Draw(t, fmt.Sprintf("v%d.stall", i))
 		}
 		if rapid.IntRange(0, 2).Draw(t, fmt.Sprintf("v%d.bigmd", i)) == 0 {
 			// large request metadata stretches the window between id allocation and the first send
@@ -524,6 +533,12 @@ func monStressSurvival(prop string) Monitor {
 				if t.DoneStep >= 0 || t.ServeReturned >= 0 {
 					add("tunnel_killed", "under real parallelism: tunnel %d ended (err %q, serve err %q) although only RPC contexts were cancelled", t.Idx, t.ChanErr, t.ServeErr)
 				}
+			}
+		}
+		if prop == "C07" {
+			// exactly one legal outcome for a cancelled RPC: whoever is told it ended normally has all of its data
+			for _, v := range monC01(c, tr) {
+				add("cancelled_rpc_mixed_outcome", "under real parallelism: %s", v.Details)
 			}
 		}
 		if prop == "C08" {
